@@ -1,6 +1,7 @@
 #!/venv/bin/python
-"""For each seeded change: apply it to /repo, run the property's quick check, undo it, record what fired in
-seeded/<id>/meta.json (detected_by, check_rc) and print one table row.  /repo must be clean; it is left clean."""
+"""For each seeded change: apply it to a scratch copy of /repo's working tree, run the property's quick check against
+that copy (VERIF_REPO), record what fired in seeded/<id>/meta.json (detected_by, check_rc) and print one table row.
+/repo itself is never modified."""
 import json
 import os
 import re
@@ -24,22 +25,27 @@ def pick(notes, keys):
 
 
 def main():
-    ids = sys.argv[1:] or [f"C{i:02d}" for i in range(1, 21)]
-    rc, out = sh("git -C /repo status --short")
-    if out.strip():
-        print("refusing: /repo is not clean:\n" + out)
-        return 1
+    ids = sys.argv[1:] or sorted(os.listdir(os.path.join(HERE, "seeded")))
+    import shutil
+    import tempfile
     rows = []
     for sid in ids:
         sd = os.path.join(HERE, "seeded", sid)
-        rc, out = sh(f"git -C /repo apply {sd}/patch.diff")
-        if rc != 0:
-            rows.append((sid, "patch does not apply", "", ""))
+        if not os.path.exists(os.path.join(sd, "patch.diff")):
             continue
+        # scratch copy of /repo's working tree (incl. the built extension): /repo itself is never touched
+        d = tempfile.mkdtemp(prefix="vfdetect_")
         try:
-            rc, out = sh(f"./check {sid.split('-')[0]} --tier quick", cwd=HERE, timeout=3000)
+            shutil.copytree("/repo/psutil", os.path.join(d, "psutil"))
+            rc, out = sh(f"patch -s -p1 -d {d} -i {sd}/patch.diff")
+            if rc != 0:
+                rows.append((sid, "patch does not apply", "", ""))
+                print("| %s | %s | %s | %s |" % rows[-1], flush=True)
+                continue
+            env = dict(os.environ, VERIF_REPO=d)
+            rc, out = sh(f"./check {sid.split('-')[0]} --tier quick --no-evidence", cwd=HERE, timeout=3000, env=env)
         finally:
-            sh("git -C /repo checkout -- .")
+            shutil.rmtree(d, ignore_errors=True)
         obl = []
         lines = out.splitlines()
         for i, ln in enumerate(lines):
@@ -56,7 +62,8 @@ def main():
             "property": sid.split("-")[0],
             "breaks": pick(notes, ("clause broken", "effect", "breaks", "property clause")),
             "needs": pick(notes, ("needed to manifest", "what is needed", "to manifest", "needs")),
-            "check_cmd": f"git -C /repo apply seeded/{sid}/patch.diff && ./check {sid.split('-')[0]} --tier quick; git -C /repo checkout -- .",
+            "check_cmd": f"tools/seed_try.py {sid.split('-')[0]} seeded/{sid}/patch.diff   (or: git -C /repo apply seeded/{sid}/patch.diff && "
+                         f"./check {sid.split('-')[0]} --tier quick; git -C /repo checkout -- .)",
             "check_rc": rc, "detected": rc == 1 and bool(obl), "detected_by": obl[:6],
             "detection_head": sh("git -C /repo rev-parse --short HEAD")[1].strip(),
         })
